@@ -206,10 +206,10 @@ def model_driver(pid):
                 pass
         with open(os.path.join(d, "driver.ml"), "w") as f:
             f.write(open(os.path.join(VERIF, "ocaml", "conv.ml")).read() + "\n" + open(drv).read())
-        rc, out = sh(["ocamlfind", "ocamlopt", "-O3", "-w", "-a", "-package", "str", "-linkpkg",
+        rc, out = sh(["ocamlfind", "ocamlopt", "-O3", "-w", "-a", "-package", "str,unix", "-linkpkg",
                       "model.mli", "model.ml", "driver.ml", "-o", "modelrun"], cwd=d, timeout=300)
         if rc != 0:
-            rc, out = sh(["ocamlfind", "ocamlopt", "-w", "-a", "-package", "str", "-linkpkg",
+            rc, out = sh(["ocamlfind", "ocamlopt", "-w", "-a", "-package", "str,unix", "-linkpkg",
                           "model.mli", "model.ml", "driver.ml", "-o", "modelrun"], cwd=d, timeout=300)
         if rc != 0:
             raise RuntimeError("ocaml build failed for %s:\n%s" % (pid, out[-3000:]))
